@@ -69,6 +69,12 @@ def run(tier: str, seed: int) -> int:
                 for op, detail in gauss.check_gauged(inst, res[j], alpha):
                     rep.violation(f"impl:{inst['kind']}:{op.replace('[lstsq]', '').replace('[solve_triu]', '')}",
                                   f"{inst['kind']} instance #{j} (n={inst['n']},m={inst['m']},d={inst['d']}): {op}: {detail}", {"instance": _ser(inst), "op": op})
+        # ill-conditioned but regular innovation factors (condition number 2^21 times the instance's): the rank-revealing
+        # and the triangular solver must both still recover the joint law
+        if not singular and j % 2 == 0:
+            for op, detail in gauss.check_row_gauged(inst, res[j]):
+                rep.violation(f"impl:{inst['kind']}:{op.replace('[lstsq]', '').replace('[solve_triu]', '')}",
+                              f"{inst['kind']} instance #{j} (n={inst['n']},m={inst['m']},d={inst['d']}): {op}: {detail}", {"instance": _ser(inst), "op": op})
         groups.setdefault((inst["kind"], inst["n"], inst["m"], inst["k"], inst["d"]), []).append(j)
     # batched (vmapped) variants on same-shaped groups
     nb = 0
